@@ -39,6 +39,10 @@ def run(ctx):
     ctx.validate("NNSP", t2, "random sample pairs of unequal sizes with duplicates", sabotage=D.sabotage,
                  replay=lambda i: {"mode": "build", "s1": t2[i]["s1"], "s2": t2[i]["s2"], "k": t2[i]["k"]},
                  nontrivial=lambda t: len(t["s1"]) != len(t["s2"]))
+    # one partitioner object reused for several builds (re-split / swapped / whole-pool samples, k changed in between)
+    t2b = [D.build_session(D.resplit_steps(rng)) for _ in range(60 if q else 600)]
+    ctx.validate("NNSP", t2b, "sessions on ONE partitioner object: the same pooled points split differently, k changed between builds", sabotage=D.sabotage,
+                 replay=lambda i: {"mode": "session", "steps": t2b[i]["steps"]}, nontrivial=lambda t: len(t["ev"]) > 2)
     # NNDVI histories
     n3, nb = (40, 8) if q else (300, 10)
     t3 = []
@@ -69,7 +73,9 @@ def run(ctx):
 
 def replay(ctx, bundle):
     r = bundle["replay"]
-    if r["mode"] == "build":
+    if r["mode"] == "session":
+        t = D.build_session([tuple(x) for x in r["steps"]])
+    elif r["mode"] == "build":
         t = D.build_trace(r["s1"], r["s2"], r["k"])
     else:
         t = D.run_nndvi(r["params"], [tuple(s) for s in r["script"]], r["seed"])
